@@ -1,5 +1,6 @@
 import NasdaqModel.Driver.Sexp
 import NasdaqModel.Model.GenSoupApp
+import NasdaqModel.Witness.C15
 /-
 Line protocol of the ITCH/OUCH/SQF generator model (C15).
 
@@ -16,6 +17,7 @@ Text is a list of code points `(99 112 …)`; an absent attribute is the atom `n
   gen.denote <impl> spec                   →  ok (schema …) | err <Err>
   gen.wf     <impl> spec                   →  true | false
   gen.table                                →  the datatype table, reserved names
+  witness C15                              →  ((<name> <impl> spec)*) — the specifications `Witness/C15.lean` is about
 -/
 namespace NasdaqModel.Driver.GenSoupAppD
 open NasdaqModel Sexp GenSoupApp
@@ -123,6 +125,24 @@ def tableSx : Sexp :=
     tag "field-reserved" (fieldReserved.map sx),
     tag "keywords" (pyKeywords.map sx)]
 
+def fieldElSx (f : FieldEl) : Sexp :=
+  tag "f" [optSx f.name, optSx f.defn, optSx f.ty, optSx f.ref, optSx f.array, optSx f.length, optSx f.dflt, optSx f.endian]
+
+def specSx (s : Spec) : Sexp :=
+  tag "spec" [
+    .list (s.enums.map fun e => tag "enum" [sx e.name, optSx e.ty, .list (e.values.map fun v => .list [sx v.name, sx v.value])]),
+    .list (s.fielddefs.map fieldElSx),
+    .list (s.records.map fun r => tag "rec" [sx r.name, .list (r.fields.map fieldElSx)]),
+    .list (s.messages.map fun g => tag "msg" [sx g.name, sx g.msgId, optSx g.group, optSx g.direction, .list (g.fields.map fieldElSx)])]
+
+/-- the specifications the theorems of `Witness/C15.lean` speak about, from the same definitions -/
+def witnesses : List (String × String × Spec) := [
+  ("array-of-fixed-string", "itch", Witness.C15.arrayOfFixed),
+  ("html-escaped-enum-value", "ouch", Witness.C15.enumSpec "<"),
+  ("html-escaped-default-value", "sqf", Witness.C15.defaultSpec "A&B"),
+  ("unescaped-quote-in-literal", "itch", Witness.C15.enumSpec "'"),
+  ("unescaped-quote-in-literal", "itch", Witness.C15.enumSpec "\\")]
+
 def handle (op : String) (args : List Sexp) : Option String :=
   match op, args with
   | "gen.code", [i, a, o, s] => do
@@ -155,6 +175,8 @@ def handle (op : String) (args : List Sexp) : Option String :=
       let spec ← specOf s
       some (if wfSpec impl spec then "true" else "false")
   | "gen.table", [] => some (tableSx.toStr)
+  | "witness", [.atom "C15"] =>
+      some (Sexp.list (witnesses.map fun w => .list [.atom w.1, .atom w.2.1, specSx w.2.2])).toStr
   | _, _ => none
 
 end NasdaqModel.Driver.GenSoupAppD
